@@ -142,7 +142,10 @@ deriving Repr
 /-- one record of `WALBatch.replay`; `none` = keep going, `some r` = stop with that result -/
 def replayOne (r : WalRec) (s : Store) : Store × Option String × Bool :=
   -- returns (store, error message if the replay aborts with an error, aborted-silently flag)
-  let s := { s with hdr := { s.hdr with nextLSN := max s.hdr.nextLSN r.lsn } }
+  -- the row-id counter is raised by every logged insert, before the page-LSN test: also by a record
+  -- that is skipped below because its page already reached the data file (the header may not have)
+  let s := { s with hdr := { s.hdr with nextLSN := max s.hdr.nextLSN r.lsn,
+                                        lastKey := if r.op == c_OpInsert then max s.hdr.lastKey r.cell else s.hdr.lastKey } }
   match fetch r.page s with
   | .ok node s1 =>
     if r.lsn ≤ nodeLSN node then (s1, none, false)
